@@ -149,6 +149,32 @@ let z46 : pystr := [47;99;51]%N in
 let z47 : pystr := [47;101;51]%N in
 (DeviceDef {| h_type := z0; h_friendly := z1; h_manufacturer := z2; h_manufacturer_url := (Some z3); h_model_desc := (Some z4); h_model_name := [77]%N; h_model_number := (Some [49]%N); h_model_url := (Some [47;109]%N); h_serial := (Some z5); h_udn := z6; h_upc := (Some z7); h_presentation := (Some z8) |} [{| ic_mime := z9; ic_w := (48)%Z; ic_h := (48)%Z; ic_d := (24)%Z; ic_url := z10 |}; {| ic_mime := z11; ic_w := (120)%Z; ic_h := (120)%Z; ic_d := (32)%Z; ic_url := z12 |}] [{| s_type := z13; s_id := z14; s_scpd := z15; s_control := z16; s_event := z17; s_vars := [{| sd_name := [65]%N; sd_type := z19; sd_attr := false; sd_evented := true; sd_default := (Some [53]%N); sd_range := (Some ((Some [48]%N), (Some z18), (Some [49]%N))); sd_allowed := None |}; {| sd_name := [66]%N; sd_type := z22; sd_attr := true; sd_evented := false; sd_default := (Some z21); sd_range := None; sd_allowed := (Some [z20; z21]) |}; {| sd_name := [67]%N; sd_type := z23; sd_attr := true; sd_evented := false; sd_default := (Some [49]%N); sd_range := None; sd_allowed := None |}; {| sd_name := [70]%N; sd_type := [114;52]%N; sd_attr := true; sd_evented := false; sd_default := nS; sd_range := (Some ((Some z24), nS, nS)); sd_allowed := None |}]; s_actions := [{| ad_name := z26; ad_args := [{| ag_name := z25; ag_in := true; ag_retval := false; ag_rsv := [65]%N |}] |}; {| ad_name := z29; ad_args := [{| ag_name := z27; ag_in := false; ag_retval := true; ag_rsv := [66]%N |}; {| ag_name := z28; ag_in := false; ag_retval := false; ag_rsv := [67]%N |}] |}]; s_corrupt := CNone |}] [(DeviceDef {| h_type := z30; h_friendly := [101;49]%N; h_manufacturer := z2; h_manufacturer_url := nS; h_model_desc := nS; h_model_name := [77]%N; h_model_number := nS; h_model_url := nS; h_serial := nS; h_udn := z31; h_upc := nS; h_presentation := nS |} (@nil icon_def) [{| s_type := z32; s_id := z33; s_scpd := z34; s_control := z35; s_event := z36; s_vars := [{| sd_name := [84]%N; sd_type := z37; sd_attr := true; sd_evented := false; sd_default := (Some z38); sd_range := None; sd_allowed := None |}]; s_actions := (@nil action_def); s_corrupt := CNoTable |}] [(DeviceDef {| h_type := z39; h_friendly := [102;49]%N; h_manufacturer := z2; h_manufacturer_url := nS; h_model_desc := nS; h_model_name := [77]%N; h_model_number := nS; h_model_url := nS; h_serial := nS; h_udn := z40; h_upc := nS; h_presentation := nS |} (@nil icon_def) (@nil service_def) [(DeviceDef {| h_type := z41; h_friendly := [103;49]%N; h_manufacturer := z2; h_manufacturer_url := nS; h_model_desc := nS; h_model_name := [77]%N; h_model_number := nS; h_model_url := nS; h_serial := nS; h_udn := z42; h_upc := nS; h_presentation := nS |} (@nil icon_def) [{| s_type := z43; s_id := z44; s_scpd := z45; s_control := z46; s_event := z47; s_vars := (@nil sv_def); s_actions := (@nil action_def); s_corrupt := CNone |}] (@nil device_def))])])])).
 
+(* a gateway: WANIPConnection and WANPPPConnection of the root device share ONE service description at one
+   URL (written relative), and the service of the embedded device names the same URL in absolute form; the
+   document declares an evented ui2 variable with a range, a string variable with an allowed list and an
+   action with an in and an out argument.  [c] = what the server does with that one document. *)
+Definition wan_vars : list sv_def :=
+  [{| sd_name := [80;111;114;116]%N; sd_type := [117;105;50]%N; sd_attr := true; sd_evented := true; sd_default := (Some [56;48]%N); sd_range := (Some ((Some [49]%N), (Some [54;53;53;51;53]%N), nS)); sd_allowed := None |};
+   {| sd_name := [83;116;97;116;117;115]%N; sd_type := [115;116;114;105;110;103]%N; sd_attr := false; sd_evented := false; sd_default := nS; sd_range := None; sd_allowed := (Some [[85;112]%N; [68;111;119;110]%N]) |}].
+Definition wan_actions : list action_def :=
+  [{| ad_name := [83;101;116;80;111;114;116]%N; ad_args := [{| ag_name := [78;101;119;80;111;114;116]%N; ag_in := true; ag_retval := false; ag_rsv := [80;111;114;116]%N |}; {| ag_name := [67;117;114]%N; ag_in := false; ag_retval := true; ag_rsv := [83;116;97;116;117;115]%N |}] |}].
+Definition ex_shared_with (c : corruption) : device_def :=
+  DeviceDef {| h_type := [117;114;110;58;115;99;104;101;109;97;115;45;117;112;110;112;45;111;114;103;58;100;101;118;105;99;101;58;73;110;116;101;114;110;101;116;71;97;116;101;119;97;121;68;101;118;105;99;101;58;49]%N; h_friendly := [103;119]%N; h_manufacturer := [65;99;109;101]%N; h_manufacturer_url := nS; h_model_desc := nS; h_model_name := [77]%N; h_model_number := nS; h_model_url := nS; h_serial := nS; h_udn := [117;117;105;100;58;103;119]%N; h_upc := nS; h_presentation := nS |} (@nil icon_def)
+    [{| s_type := [117;114;110;58;115;99;104;101;109;97;115;45;117;112;110;112;45;111;114;103;58;115;101;114;118;105;99;101;58;87;65;78;73;80;67;111;110;110;101;99;116;105;111;110;58;49]%N; s_id := [117;114;110;58;117;112;110;112;45;111;114;103;58;115;101;114;118;105;99;101;73;100;58;87;65;78;73;80;67;111;110;110;49]%N; s_scpd := [47;119;97;110;46;120;109;108]%N; s_control := [47;99;47;105;112]%N; s_event := [47;101;47;105;112]%N; s_vars := wan_vars; s_actions := wan_actions; s_corrupt := c |};
+     {| s_type := [117;114;110;58;115;99;104;101;109;97;115;45;117;112;110;112;45;111;114;103;58;115;101;114;118;105;99;101;58;87;65;78;80;80;80;67;111;110;110;101;99;116;105;111;110;58;49]%N; s_id := [117;114;110;58;117;112;110;112;45;111;114;103;58;115;101;114;118;105;99;101;73;100;58;87;65;78;80;80;80;67;111;110;110;49]%N; s_scpd := [47;119;97;110;46;120;109;108]%N; s_control := [47;99;47;112;112;112]%N; s_event := [47;101;47;112;112;112]%N; s_vars := wan_vars; s_actions := wan_actions; s_corrupt := c |}]
+    [DeviceDef {| h_type := [117;114;110;58;115;99;104;101;109;97;115;45;117;112;110;112;45;111;114;103;58;100;101;118;105;99;101;58;87;65;78;67;111;110;110;101;99;116;105;111;110;68;101;118;105;99;101;58;49]%N; h_friendly := [119;97;110]%N; h_manufacturer := [65;99;109;101]%N; h_manufacturer_url := nS; h_model_desc := nS; h_model_name := [77]%N; h_model_number := nS; h_model_url := nS; h_serial := nS; h_udn := [117;117;105;100;58;119;97;110]%N; h_upc := nS; h_presentation := nS |} (@nil icon_def)
+       [{| s_type := [117;114;110;58;115;99;104;101;109;97;115;45;117;112;110;112;45;111;114;103;58;115;101;114;118;105;99;101;58;87;65;78;73;80;67;111;110;110;101;99;116;105;111;110;58;49]%N; s_id := [117;114;110;58;117;112;110;112;45;111;114;103;58;115;101;114;118;105;99;101;73;100;58;87;65;78;73;80;67;111;110;110;49]%N; s_scpd := [104;116;116;112;58;47;47;104;58;49;47;100;46;120;109;108;47;119;97;110;46;120;109;108]%N; s_control := [47;99;47;105;112;50]%N; s_event := [47;101;47;105;112;50]%N; s_vars := wan_vars; s_actions := wan_actions; s_corrupt := c |}]
+       (@nil device_def)].
+Definition ex_shared : device_def := ex_shared_with CNone.
+(* the same, but the second service claims different actions for the shared document: outside the domain *)
+Definition ex_shared_bad : device_def :=
+  match ex_shared with
+  | DeviceDef h i (s1 :: s2 :: _) subs =>
+      DeviceDef h i [s1; {| s_type := s_type s2; s_id := s_id s2; s_scpd := s_scpd s2; s_control := s_control s2; s_event := s_event s2;
+                            s_vars := s_vars s2; s_actions := []; s_corrupt := s_corrupt s2 |}] subs
+  | d => d
+  end.
+
 (* the data type names the statement counts: all 26 of UDA / STATE_VARIABLE_TYPE_MAPPING on the unchanged tree *)
 Definition uda_types : list pystr := [
   [117;105;49]%N (* ui1 *);
